@@ -58,6 +58,13 @@ CHECKS = {
              'of each element must equal that of a database freshly built from the final content.',
         note='The abstract model is edited by mirror functions; histories whose final content cannot be built (two tables with one full name) are skipped and counted. Histories are never merged by content.',
         design='DESIGN.md §3 C10'),
+    'C16': dict(
+        level='model_checking', technique='configuration product x routes x attach/detach histories with tagged custom renderers; exactly-once containment on every C01 BFS state; exhaustive render-call sequences with a public-model snapshot after every call',
+        text='4x4 renderer configurations on four configuration routes, each with add/delete/re-add histories of every top-level element kind and its columns, decide which class rendered each text; on every well-formed '
+             'state of the C01 derivation BFS every element text must occur exactly once, at an element boundary, in the database text; every sequence of render calls up to the bound (23 calls, incl. the join table of a <> reference) '
+             'must leave the public model snapshot unchanged and return what the call returns when evaluated first.',
+        note='Custom renderers are BaseRenderer subclasses with their own handler dict. The purity snapshot is the public model (content, order, identity per container slot, back-pointers); private attributes are not part of it.',
+        design='DESIGN.md §3 C16'),
     'C17': dict(
         level='model_checking', technique='explicit-state BFS over attribute-removal / restoration / detachment histories with every rendering evaluated in every state; exhaustive reference product with a classifying reference model',
         text='Histories over {unset a required attribute, restore it, detach / re-attach table and enum} are executed on real objects; in every state the .sql of every element and container must raise '
